@@ -77,7 +77,22 @@ class T(ast.NodeTransformer):
         return ast.Call(_sx('and_'), parts, [])
 
     def visit_BoolOp(self, n):
+        has_walrus = any(isinstance(x, ast.NamedExpr) for v in n.values for x in ast.walk(v))
         self.generic_visit(n)
+        if has_walrus:
+            # an assignment expression inside a lambda would bind in the lambda: short-circuit through conditional expressions
+            # instead (A and B == B if truth(t := A) else t ; A or B == t if truth(t := A) else B), right-folded
+            self._tmp = getattr(self, "_tmp", 0)
+            acc = n.values[-1]
+            for v in reversed(n.values[:-1]):
+                self._tmp += 1
+                t = f"__sx_bo{self._tmp}"
+                test = self._t(ast.NamedExpr(ast.Name(t, ast.Store()), v))
+                if isinstance(n.op, ast.And):
+                    acc = ast.IfExp(test, acc, ast.Name(t, ast.Load()))
+                else:
+                    acc = ast.IfExp(test, ast.Name(t, ast.Load()), acc)
+            return acc
         return ast.Call(_sx('and_' if isinstance(n.op, ast.And) else 'or_'), [_lam(v) for v in n.values], [])
 
     def visit_UnaryOp(self, n):
